@@ -263,7 +263,11 @@ pub fn with_clause(w: &With) -> WithClause {
 }
 
 pub fn sel(s: &Sel) -> SelectStatement {
-    let mut q = Query::select();
+    let mut q = match route(3) {
+        0 => SelectStatement::new(),
+        1 => SelectStatement::default(),
+        _ => Query::select(),
+    };
     match &s.distinct {
         Some(Distinct::All) => {
             // no dedicated method: public field is not accessible; `SelectDistinct::All` has no setter,
@@ -280,7 +284,39 @@ pub fn sel(s: &Sel) -> SelectStatement {
         }
         None => {}
     }
-    for it in &s.items {
+    // a select list of nothing but plain columns: the plural form takes them in one call
+    let all_plain: Option<Vec<Alias>> = s
+        .items
+        .iter()
+        .map(|it| match (&it.expr, &it.alias, &it.window) {
+            (X::Col(c), None, None) => Some(a(c)),
+            _ => None,
+        })
+        .collect();
+    let plural_items = matches!(&all_plain, Some(v) if v.len() >= 2) && route(2) == 0;
+    if plural_items {
+        q.columns(all_plain.clone().unwrap());
+    }
+    let all_qualified: Option<Vec<(Alias, Alias)>> = s
+        .items
+        .iter()
+        .map(|it| match (&it.expr, &it.alias, &it.window) {
+            (X::QCol(t, c), None, None) => Some((a(t), a(c))),
+            _ => None,
+        })
+        .collect();
+    let plural_items = if !plural_items && matches!(&all_qualified, Some(v) if v.len() >= 2) && route(2) == 0 {
+        q.columns(all_qualified.clone().unwrap());
+        true
+    } else {
+        plural_items
+    };
+    // unaliased expressions without windows: `exprs` takes them in one call
+    let all_exprs = !plural_items && s.items.len() >= 2 && s.items.iter().all(|it| it.alias.is_none() && it.window.is_none()) && route(3) == 0;
+    if all_exprs {
+        q.exprs(s.items.iter().map(|it| it.expr.build()));
+    }
+    for it in s.items.iter().filter(|_| !plural_items && !all_exprs) {
         let e = it.expr.build();
         match (&it.window, &it.alias) {
             (None, None) => match &it.expr {
@@ -382,7 +418,19 @@ pub fn sel(s: &Sel) -> SelectStatement {
     if route(4) == 0 {
         q.and_where_option(None);
     }
-    for g in &s.groups {
+    let group_cols: Option<Vec<Alias>> = s.groups.iter().map(|g| if let X::Col(c) = g { Some(a(c)) } else { None }).collect();
+    let plural_groups = matches!(&group_cols, Some(v) if v.len() >= 2) && route(2) == 0;
+    if plural_groups {
+        q.group_by_columns(group_cols.clone().unwrap());
+    }
+    let group_qcols: Option<Vec<(Alias, Alias)>> = s.groups.iter().map(|g| if let X::QCol(t, c) = g { Some((a(t), a(c))) } else { None }).collect();
+    let plural_groups = if !plural_groups && matches!(&group_qcols, Some(v) if v.len() >= 2) && route(2) == 0 {
+        q.group_by_columns(group_qcols.clone().unwrap());
+        true
+    } else {
+        plural_groups
+    };
+    for g in s.groups.iter().filter(|_| !plural_groups) {
         match g {
             X::Col(c) if route(2) == 0 => {
                 q.group_by_col(a(c));
@@ -428,14 +476,68 @@ pub fn sel(s: &Sel) -> SelectStatement {
             }
         }
     }
-    for o in &s.orders {
-        add_order(&mut q, o);
+    // all keys plain columns without NULLS ordering: the plural form takes them in one call
+    let plain_cols: Option<Vec<(Alias, Order)>> = s
+        .orders
+        .iter()
+        .map(|o| match (&o.expr, &o.dir, o.nulls_first) {
+            (X::Col(c), Dir::Asc, None) => Some((a(c), Order::Asc)),
+            (X::Col(c), Dir::Desc, None) => Some((a(c), Order::Desc)),
+            _ => None,
+        })
+        .collect();
+    match plain_cols {
+        Some(cols) if cols.len() >= 2 && route(3) == 0 => {
+            q.order_by_columns(cols);
+        }
+        _ => {
+            for o in &s.orders {
+                add_order(&mut q, o);
+            }
+        }
     }
-    if let Some(l) = s.limit {
-        q.limit(l);
-    }
-    if let Some(l) = s.offset {
-        q.offset(l);
+    // limit / offset directly, or through the conditional helpers
+    match route(4) {
+        0 => {
+            q.apply_if(s.limit, |q, l| {
+                q.limit(l);
+            });
+            q.apply_if(s.offset, |q, l| {
+                q.offset(l);
+            });
+        }
+        1 => {
+            let (l, o) = (s.limit, s.offset);
+            q.apply(|q| {
+                if let Some(l) = l {
+                    q.limit(l);
+                }
+                if let Some(o) = o {
+                    q.offset(o);
+                }
+            });
+        }
+        2 => {
+            let (l, o) = (s.limit, s.offset);
+            q.conditions(
+                l.is_some(),
+                |q| {
+                    q.limit(l.unwrap());
+                },
+                |_| {},
+            );
+            if let Some(o) = o {
+                q.offset(o);
+            }
+        }
+        _ => {
+            if let Some(l) = s.limit {
+                q.limit(l);
+            }
+            if let Some(l) = s.offset {
+                q.offset(l);
+            }
+        }
     }
     if let Some(l) = &s.lock {
         let ty = match l.kind {
